@@ -443,44 +443,55 @@ Proof.
     + apply move_one. intros. apply H; auto. now left.
 Qed.
 
-(* ---------- import lists *)
-Definition footprint (fuel : nat) (fs : fsys) (p : name) : list (ftag * name) :=
-  flat_map foot (path_ops fuel fs p).
+(* ---------- blocks of modules *)
+Lemma req_prefix : forall pre a b,
+  (forall t, req (run_ops a t) (run_ops b t)) -> forall t, req (run_ops (pre ++ a) t) (run_ops (pre ++ b) t).
+Proof. induction pre; intros; simpl app; [apply H|]. apply req_cons. intros. now apply IHpre. Qed.
+
+Lemma mem_app : forall x a b, mem x (a ++ b) = mem x a || mem x b.
+Proof. induction a; intros; simpl; [reflexivity|]. destruct (String.eqb x a); auto. Qed.
+
+Lemma NoDup_app_intro_disj : forall (a b : list name),
+  NoDup a -> NoDup b -> (forall x, In x a -> In x b -> False) -> NoDup (a ++ b).
+Proof.
+  induction a; intros b Ha Hb H; simpl; [assumption|]. inversion Ha; subst. constructor.
+  - intro Hin. apply in_app_iff in Hin. destruct Hin; [contradiction|]. apply (H a); [now left|assumption].
+  - apply IHa; auto. intros x Hx. apply H. now right.
+Qed.
+Lemma NoDup_app_intro_r : forall (N : list name) p, NoDup N -> ~ In p N -> NoDup (N ++ [p]).
+Proof.
+  intros. apply NoDup_app_intro_disj; auto; [repeat constructor; intros []|].
+  intros x Hx [<-|[]]. contradiction.
+Qed.
+
+Section Blocks.
+Variable pf : nat.
+Variable fs : fsys.
+
+Definition blocks (l : list name) : list op := flat_map (block pf fs) l.
+Definition footprint (p : name) : list (ftag * name) := flat_map foot (block pf fs p).
 (* modules that bind disjoint names (impl blocks: for different structs; constructors: for different
    (struct, arity)) *)
-Definition independent (fuel : nat) (fs : fsys) (l : list name) : Prop :=
-  forall p q, In p l -> In q l -> p <> q ->
-  forall x, In x (footprint fuel fs p) -> ~ In x (footprint fuel fs q).
+Definition independent (U : list name) : Prop :=
+  forall p q, In p U -> In q U -> p <> q -> forall x, In x (footprint p) -> ~ In x (footprint q).
 (* weaker: any two registration steps of two different modules are identical or touch different names *)
-Definition compatible (fuel : nat) (fs : fsys) (l : list name) : Prop :=
-  forall p q, In p l -> In q l -> p <> q ->
-  forall o1 o2, In o1 (path_ops fuel fs p) -> In o2 (path_ops fuel fs q) -> compat o1 o2.
+Definition compatible (U : list name) : Prop :=
+  forall p q, In p U -> In q U -> p <> q ->
+  forall o1 o2, In o1 (block pf fs p) -> In o2 (block pf fs q) -> compat o1 o2.
 
-Lemma independent_compatible : forall fuel fs l, independent fuel fs l -> compatible fuel fs l.
+Lemma independent_compatible : forall U, independent U -> compatible U.
 Proof.
-  intros fuel fs l H p q Hp Hq Hne o1 o2 H1 H2. right. intros x Hx1 Hx2.
+  intros U H p q Hp Hq Hne o1 o2 H1 H2. right. intros x Hx1 Hx2.
   apply (H p q Hp Hq Hne x); unfold footprint; apply in_flat_map; eauto.
 Qed.
 
-Lemma load_is_run : forall fuel fs l t, NoDup l -> (forall p, In p l -> mem p (loaded t) = false) ->
-  load fuel fs l t = run_ops (flat_map (path_ops fuel fs) l) t.
+Lemma perm_blocks : forall l1 l2, Permutation l1 l2 -> NoDup l1 -> compatible l1 ->
+  forall rest t, req (run_ops (blocks l1 ++ rest) t) (run_ops (blocks l2 ++ rest) t).
 Proof.
-  induction l as [|p l IH]; intros t N U; simpl; [reflexivity|].
-  unfold handle_import. rewrite (U p) by now left. rewrite run_ops_app.
-  destruct (run_ops (path_ops fuel fs p) t) as [t'|e] eqn:E; [|reflexivity].
-  inversion N; subst. apply IH; [assumption|]. intros q Hq.
-  rewrite (path_ops_loaded _ _ _ _ _ E). simpl. rewrite (U q) by now right.
-  destruct (String.eqb_spec q p); [subst; tauto|reflexivity].
-Qed.
-
-Lemma perm_blocks : forall fuel fs l1 l2, Permutation l1 l2 -> NoDup l1 -> compatible fuel fs l1 ->
-  forall rest t, req (run_ops (flat_map (path_ops fuel fs) l1 ++ rest) t)
-                     (run_ops (flat_map (path_ops fuel fs) l2 ++ rest) t).
-Proof.
-  intros fuel fs l1 l2 P. induction P; intros N I rest t.
+  unfold blocks. intros l1 l2 P. induction P; intros N I rest t.
   - apply req_refl.
   - simpl. rewrite <- !app_assoc. rewrite !run_ops_app.
-    destruct (run_ops (path_ops fuel fs x) t); [|exact Logic.I].
+    destruct (run_ops (block pf fs x) t); [|exact Logic.I].
     apply IHP; [now inversion N|]. intros p q Hp Hq. apply I; now right.
   - simpl. rewrite <- !app_assoc. apply swap_blocks.
     inversion N as [|? ? N1 N2]; subst. inversion N2; subst.
@@ -490,24 +501,314 @@ Proof.
     + intros p q Hp Hq. apply I; (eapply Permutation_in; [apply Permutation_sym; exact P1|assumption]).
 Qed.
 
-Lemma import_order_compatible_l : forall fuel fs l1 l2 t,
-  Permutation l1 l2 -> NoDup l1 -> (forall p, In p l1 -> mem p (loaded t) = false) ->
-  compatible fuel fs l1 ->
-  req (load fuel fs l1 t) (load fuel fs l2 t).
+Lemma in_blocks : forall o l, In o (blocks l) -> exists q, In q l /\ In o (block pf fs q).
+Proof. intros o l H. apply in_flat_map in H. exact H. Qed.
+
+(* ---------- normal form: a successful import = the blocks of the newly loaded modules, in the
+   order they were marked *)
+Variable U : list name.
+Hypothesis HC : compatible U.
+
+Definition new_ok (t t' : tables) (N : list name) : Prop :=
+  loaded t' = N ++ loaded t /\ (forall q, In q N -> mem q (loaded t) = false) /\ NoDup N.
+
+Lemma normal_form :
+  (forall t p t', imports pf fs t p t' -> exists N, new_ok t t' N /\
+     ((forall q, In q N -> In q U) ->
+      forall rest, req (run_ops rest t') (run_ops (blocks (rev N) ++ rest) t))) /\
+  (forall p t l t', stmts pf fs p t l t' -> exists N, new_ok t t' N /\
+     (In p U -> mem p (loaded t) = true ->
+      (forall o, In o (flat_map (import_stmt_ops p) l) -> In o (block pf fs p)) ->
+      (forall q, In q N -> In q U) ->
+      forall rest, req (run_ops rest t') (run_ops (flat_map (import_stmt_ops p) l ++ blocks (rev N) ++ rest) t))).
 Proof.
-  intros fuel fs l1 l2 t P N U I.
-  rewrite (load_is_run fuel fs l1 t N U).
-  rewrite (load_is_run fuel fs l2 t).
-  - pose proof (perm_blocks fuel fs l1 l2 P N I [] t) as H. now rewrite !app_nil_r in H.
-  - eapply Permutation_NoDup; eauto.
-  - intros p Hp. apply U. eapply Permutation_in; [apply Permutation_sym; exact P|assumption].
+  apply loader_ind.
+  - (* already loaded *)
+    intros t p M. exists []. split; [repeat split; auto; [intros q []|constructor]|].
+    intros _ rest. simpl. apply req_refl.
+  - (* a module is loaded *)
+    intros t p m t2 t' M R Hst [N [[L [D ND]] Hreq]] Hs.
+    pose proof (run_sync_loaded _ _ _ Hs) as L'.
+    assert (HpN : ~ In p N).
+    { intro Hin. specialize (D p Hin). simpl in D. now rewrite String.eqb_refl in D. }
+    exists (N ++ [p]). split.
+    + repeat split.
+      * rewrite L', L. simpl. now rewrite <- app_assoc.
+      * intros q Hq. apply in_app_iff in Hq. destruct Hq as [Hq|[<-|[]]]; [|exact M].
+        specialize (D q Hq). simpl in D. destruct (String.eqb q p); [discriminate|exact D].
+      * apply NoDup_app_intro_r; auto.
+    + intros HU rest.
+      assert (HpU : In p U) by (apply HU; apply in_app_iff; right; now left).
+      assert (HNU : forall q, In q N -> In q U) by (intros; apply HU; apply in_app_iff; now left).
+      assert (Hblock : block pf fs p = OLoaded p :: flat_map (import_stmt_ops p) m
+                                       ++ flat_map sync_ops (parser_impls pf fs m)).
+      { unfold block. now rewrite R. }
+      rewrite rev_app_distr. simpl rev. simpl app. unfold blocks. simpl flat_map. fold (blocks (rev N)).
+      rewrite Hblock. simpl app. rewrite run_cons. simpl apply_op. fold (mark_loaded p t).
+      rewrite <- !app_assoc.
+      (* run rest t' = run (syncs ++ rest) t2 *)
+      assert (E : run_ops rest t' = run_ops (flat_map sync_ops (parser_impls pf fs m) ++ rest) t2)
+        by (now rewrite run_ops_app, Hs).
+      rewrite E.
+      eapply req_trans.
+      * apply Hreq; auto.
+        -- simpl. now rewrite String.eqb_refl.
+        -- intros o Ho. rewrite Hblock. right. apply in_app_iff. now left.
+      * apply req_prefix. intros t0. apply swap_blocks.
+        intros o1 o2 H1 H2. apply in_blocks in H1. destruct H1 as [q [Hq Ho1]].
+        apply in_rev in Hq. apply (HC q p); auto.
+        -- intro; subst. contradiction.
+        -- rewrite Hblock. right. apply in_app_iff. now right.
+  - (* no statement *)
+    intros p t. exists []. split; [repeat split; auto; [intros q []|constructor]|].
+    intros _ _ _ _ rest. simpl. apply req_refl.
+  - (* import statement inside the module *)
+    intros p t q r ta t2 Hi [Na [[La [Da NDa]] Ia]] Hs [Nr [[Lr [Dr NDr]] Sr]].
+    exists (Nr ++ Na). split.
+    + repeat split.
+      * rewrite Lr, La. now rewrite app_assoc.
+      * intros x Hx. apply in_app_iff in Hx. destruct Hx as [Hx|Hx]; [|auto].
+        specialize (Dr x Hx). rewrite La, mem_app in Dr. apply orb_false_iff in Dr. tauto.
+      * apply NoDup_app_intro_disj; auto.
+        intros x Hx Hx'. specialize (Dr x Hx). rewrite La, mem_app in Dr. apply orb_false_iff in Dr.
+        destruct Dr as [Dr _]. apply mem_false_iff in Dr. contradiction.
+    + intros HpU Hp Hsub HU rest.
+      assert (HUa : forall x, In x Na -> In x U) by (intros; apply HU; apply in_app_iff; now right).
+      assert (HUr : forall x, In x Nr -> In x U) by (intros; apply HU; apply in_app_iff; now left).
+      rewrite rev_app_distr. unfold blocks. rewrite flat_map_app. fold (blocks (rev Na)). fold (blocks (rev Nr)).
+      simpl flat_map. simpl app. rewrite <- !app_assoc.
+      eapply req_trans.
+      * apply Sr; auto. eapply imports_mono; eauto.
+      * eapply req_trans; [apply (Ia HUa)|].
+        apply swap_blocks. intros o1 o2 H1 H2.
+        apply in_blocks in H1. destruct H1 as [x [Hx Ho1]]. apply in_rev in Hx.
+        apply (HC x p); auto.
+        intro; subst. specialize (Da p Hx). congruence.
+  - (* declaration *)
+    intros p t e d r ta t2 Hr Hs [N [[L [D ND]] S]].
+    pose proof (run_stmt_ops_loaded _ _ _ _ Hr) as La.
+    exists N. split.
+    + repeat split; auto.
+      * now rewrite L, La.
+      * intros x Hx. rewrite <- La. auto.
+    + intros HpU Hp Hsub HU rest.
+      cbn [flat_map]. rewrite <- app_assoc. rewrite run_ops_app, Hr.
+      apply S; auto.
+      * now rewrite La.
+      * intros o Ho. apply Hsub. cbn [flat_map]. apply in_app_iff. now right.
 Qed.
 
-Lemma import_order_independent_l : forall fuel fs l1 l2 t,
-  Permutation l1 l2 -> NoDup l1 -> (forall p, In p l1 -> mem p (loaded t) = false) ->
-  independent fuel fs l1 ->
-  req (load fuel fs l1 t) (load fuel fs l2 t).
-Proof. intros. apply import_order_compatible_l; auto using independent_compatible. Qed.
+(* ---------- which modules an import loads: exactly those reachable through not-yet-loaded modules *)
+Inductive reach_new (L : list name) (l : list name) : name -> Prop :=
+| rn_base : forall q, In q l -> mem q L = false -> reach_new L l q
+| rn_step : forall r m q, reach_new L l r -> resolve fs r = Some m -> In (SImport q) m -> mem q L = false ->
+    reach_new L l q.
+
+Lemma reach_new_not_loaded : forall L l q, reach_new L l q -> mem q L = false.
+Proof. intros L l q H. destruct H; assumption. Qed.
+
+Lemma reach_new_trans : forall L L' l l' q,
+  reach_new L' l' q -> (forall x, mem x L = true -> mem x L' = true) ->
+  (forall x, In x l' -> mem x L' = false -> reach_new L l x) -> reach_new L l q.
+Proof.
+  intros L L' l l' q H HL Hb. induction H.
+  - auto.
+  - eapply rn_step; eauto. destruct (mem q L) eqn:E; [|reflexivity]. rewrite (HL _ E) in H2. discriminate.
+Qed.
+
+Lemma reach_new_incl : forall L l l' q, reach_new L l q -> (forall x, In x l -> In x l') -> reach_new L l' q.
+Proof. intros L l l' q H Hl. induction H; [apply rn_base; auto|eapply rn_step; eauto]. Qed.
+
+Lemma loaded_reachable :
+  (forall t p t', imports pf fs t p t' ->
+     forall q, mem q (loaded t) = false -> mem q (loaded t') = true -> reach_new (loaded t) [p] q) /\
+  (forall p t l t', stmts pf fs p t l t' ->
+     forall q, mem q (loaded t) = false -> mem q (loaded t') = true ->
+     exists r, In (SImport r) l /\ mem r (loaded t) = false /\ reach_new (loaded t) [r] q).
+Proof.
+  apply loader_ind.
+  - intros t p M q H1 H2. congruence.
+  - intros t p m t2 t' M R Hst IH Hs q H1 H2.
+    pose proof (run_sync_loaded _ _ _ Hs) as L.
+    destruct (String.eqb_spec q p) as [->|N]; [apply rn_base; [now left|assumption]|].
+    rewrite L in H2.
+    assert (H1' : mem q (loaded (mark_loaded p t)) = false).
+    { simpl. apply String.eqb_neq in N. now rewrite N. }
+    destruct (IH q H1' H2) as [r [Hr [Mr Rr]]].
+    eapply reach_new_trans; eauto.
+    + intros x Hx. simpl. rewrite Hx. now destruct (String.eqb x p).
+    + intros x [E|[]] Hx. subst x. eapply rn_step; [apply rn_base; [now left|exact M]|exact R|exact Hr|].
+      simpl in Hx. destruct (String.eqb r p); [discriminate|exact Hx].
+  - intros p t q H1 H2. congruence.
+  - intros p t q r ta t2 Hi I Hs S x H1 H2.
+    destruct (mem x (loaded ta)) eqn:E.
+    + exists q. split; [now left|]. split.
+      * destruct (mem q (loaded t)) eqn:Mq; [|reflexivity].
+        (* q was loaded already: the import changed nothing, so x cannot be new *)
+        inversion Hi; subst; congruence.
+      * apply I; assumption.
+    + destruct (S x E H2) as [r0 [Hr0 [Mr0 Rr0]]]. exists r0. split; [now right|]. split.
+      * destruct (mem r0 (loaded t)) eqn:Mr; [|reflexivity].
+        rewrite (imports_mono _ _ _ _ _ _ Hi Mr) in Mr0. discriminate.
+      * eapply reach_new_trans; eauto.
+        -- intros y Hy. eapply imports_mono; eauto.
+        -- intros y [E'|[]] Hy. subst y. apply rn_base; [now left|].
+           destruct (mem r0 (loaded t)) eqn:My; [|reflexivity].
+           rewrite (imports_mono _ _ _ _ _ _ Hi My) in Hy. discriminate.
+  - intros p t e d r ta t2 Hr Hs S x H1 H2.
+    pose proof (run_stmt_ops_loaded _ _ _ _ Hr) as L. rewrite <- L in H1.
+    destruct (S x H1 H2) as [r0 [Hr0 [Mr0 Rr0]]]. rewrite L in Mr0, Rr0. exists r0. split; [now right|]. auto.
+Qed.
+
+End Blocks.
+
+(* ---------- sequences of imports *)
+Lemma load_mono : forall fuel pf fs l t t' q,
+  load fuel pf fs l t = Ok t' -> mem q (loaded t) = true -> mem q (loaded t') = true.
+Proof.
+  induction l as [|a l IH]; intros t t' q H Hq; simpl in H.
+  - now injection H as <-.
+  - destruct (handle_import fuel pf fs t a) as [ta|] eqn:E; [|discriminate].
+    eapply IH; eauto. eapply handle_import_mono; eauto.
+Qed.
+
+Lemma load_keeps : forall fuel pf fs l t t' g k,
+  load fuel pf fs l t = Ok t' -> tlookup g k t <> None -> tlookup g k t' <> None.
+Proof.
+  induction l as [|a l IH]; intros t t' g k H Hd; simpl in H.
+  - now injection H as <-.
+  - destruct (handle_import fuel pf fs t a) as [ta|] eqn:E; [|discriminate].
+    eapply IH; eauto. eapply imports_keeps; eauto. eapply handle_import_sound; eauto.
+Qed.
+
+Lemma load_marks : forall fuel pf fs l t t' p,
+  load fuel pf fs l t = Ok t' -> In p l -> mem p (loaded t') = true.
+Proof.
+  induction l as [|a l IH]; intros t t' p H Hp; simpl in H; [destruct Hp|].
+  destruct (handle_import fuel pf fs t a) as [ta|] eqn:E; [|discriminate].
+  destruct Hp as [->|Hp]; [|eauto].
+  eapply load_mono; eauto. eapply handle_import_marks; eauto.
+Qed.
+
+Lemma load_complete : forall fuel pf fs l t t' q,
+  load fuel pf fs l t = Ok t' -> mem q (loaded t) = false -> mem q (loaded t') = true -> complete fs q t'.
+Proof.
+  induction l as [|a l IH]; intros t t' q H H1 H2; simpl in H.
+  - injection H as <-. congruence.
+  - destruct (handle_import fuel pf fs t a) as [ta|] eqn:E; [|discriminate].
+    destruct (mem q (loaded ta)) eqn:Ma; [|eauto].
+    pose proof (handle_import_sound _ _ _ _ _ _ E) as Hi.
+    destruct (proj1 (newly_loaded_complete pf fs) _ _ _ Hi q H1 Ma) as [m [R [C1 C2]]].
+    exists m. repeat split; auto.
+    + intros r Hr. eapply load_mono; eauto.
+    + intros d g k Hd Hk. eapply load_keeps; eauto.
+Qed.
+
+Lemma load_reach : forall fuel pf fs l t t' q,
+  load fuel pf fs l t = Ok t' -> mem q (loaded t) = false -> mem q (loaded t') = true ->
+  reach_new fs (loaded t) l q.
+Proof.
+  induction l as [|a l IH]; intros t t' q H H1 H2; simpl in H.
+  - injection H as <-. congruence.
+  - destruct (handle_import fuel pf fs t a) as [ta|] eqn:E; [|discriminate].
+    pose proof (handle_import_sound _ _ _ _ _ _ E) as Hi.
+    destruct (mem q (loaded ta)) eqn:Ma.
+    + eapply reach_new_incl; [apply (proj1 (loaded_reachable pf fs) _ _ _ Hi q H1 Ma)|].
+      intros x [<-|[]]. now left.
+    + eapply reach_new_trans; [apply (IH _ _ _ H Ma H2)| |].
+      * intros x Hx. eapply imports_mono; eauto.
+      * intros x Hx Mx. apply rn_base; [now right|].
+        destruct (mem x (loaded t)) eqn:Mt; [|reflexivity].
+        rewrite (imports_mono _ _ _ _ _ _ Hi Mt) in Mx. discriminate.
+Qed.
+
+Lemma load_normal : forall fuel pf fs U, compatible pf fs U -> forall l t t',
+  load fuel pf fs l t = Ok t' -> exists N, new_ok t t' N /\
+    ((forall q, In q N -> In q U) ->
+     forall rest, req (run_ops rest t') (run_ops (blocks pf fs (rev N) ++ rest) t)).
+Proof.
+  intros fuel pf fs U HC. induction l as [|a l IH]; intros t t' H; simpl in H.
+  - injection H as <-. exists []. split; [repeat split; auto; [intros q []|constructor]|].
+    intros _ rest. apply req_refl.
+  - destruct (handle_import fuel pf fs t a) as [ta|] eqn:E; [|discriminate].
+    pose proof (handle_import_sound _ _ _ _ _ _ E) as Hi.
+    destruct (proj1 (normal_form pf fs U HC) _ _ _ Hi) as [Na [[La [Da NDa]] Ia]].
+    destruct (IH _ _ H) as [Nr [[Lr [Dr NDr]] Ir]].
+    exists (Nr ++ Na). split.
+    + repeat split.
+      * rewrite Lr, La. now rewrite app_assoc.
+      * intros x Hx. apply in_app_iff in Hx. destruct Hx as [Hx|Hx]; [|auto].
+        specialize (Dr x Hx). rewrite La, mem_app in Dr. apply orb_false_iff in Dr. tauto.
+      * apply NoDup_app_intro_disj; auto.
+        intros x Hx Hx'. specialize (Dr x Hx). rewrite La, mem_app in Dr. apply orb_false_iff in Dr.
+        destruct Dr as [Dr _]. apply mem_false_iff in Dr. contradiction.
+    + intros HU rest.
+      assert (HUa : forall x, In x Na -> In x U) by (intros; apply HU; apply in_app_iff; now right).
+      assert (HUr : forall x, In x Nr -> In x U) by (intros; apply HU; apply in_app_iff; now left).
+      rewrite rev_app_distr. unfold blocks. rewrite flat_map_app. rewrite <- app_assoc.
+      eapply req_trans; [apply (Ir HUr)|]. apply (Ia HUa).
+Qed.
+
+(* the set of modules a successful sequence of imports loads does not depend on the order *)
+Lemma load_same_modules : forall fuel pf fs l1 l2 t t1 t2,
+  Permutation l1 l2 -> load fuel pf fs l1 t = Ok t1 -> load fuel pf fs l2 t = Ok t2 ->
+  forall q, mem q (loaded t1) = true -> mem q (loaded t2) = true.
+Proof.
+  intros fuel pf fs l1 l2 t t1 t2 P H1 H2 q Hq.
+  destruct (mem q (loaded t)) eqn:M; [eapply load_mono; eauto|].
+  pose proof (load_reach _ _ _ _ _ _ _ H1 M Hq) as R.
+  assert (R2 : reach_new fs (loaded t) l2 q).
+  { eapply reach_new_incl; eauto. intros. eapply Permutation_in; eauto. }
+  clear R Hq. induction R2 as [q Hin Mq|r m q Hr IH Rr Hm Mq].
+  - eapply load_marks; eauto.
+  - specialize (IH (reach_new_not_loaded _ _ _ _ Hr)).
+    destruct (load_complete _ _ _ _ _ _ _ H2 (reach_new_not_loaded _ _ _ _ Hr) IH) as [m' [R' [C _]]].
+    rewrite Rr in R'. injection R' as <-. auto.
+Qed.
+
+Lemma import_order_compatible_l : forall fuel pf fs U l1 l2 t t1 t2,
+  Permutation l1 l2 -> load fuel pf fs l1 t = Ok t1 -> load fuel pf fs l2 t = Ok t2 ->
+  compatible pf fs U ->
+  (forall q, mem q (loaded t1) = true -> mem q (loaded t) = true \/ In q U) ->
+  teq t1 t2.
+Proof.
+  intros fuel pf fs U l1 l2 t t1 t2 P H1 H2 HC HU.
+  destruct (load_normal _ _ _ _ HC _ _ _ H1) as [N1 [[L1 [D1 ND1]] I1]].
+  destruct (load_normal _ _ _ _ HC _ _ _ H2) as [N2 [[L2 [D2 ND2]] I2]].
+  assert (S12 : forall q, In q N1 -> In q N2).
+  { intros q Hq. assert (Hm : mem q (loaded t1) = true).
+    { rewrite L1, mem_app. apply orb_true_iff. left. now apply mem_true_iff. }
+    pose proof (load_same_modules _ _ _ _ _ _ _ _ P H1 H2 q Hm) as Hm2.
+    rewrite L2, mem_app, (D1 q Hq), orb_false_r in Hm2. now apply mem_true_iff. }
+  assert (S21 : forall q, In q N2 -> In q N1).
+  { intros q Hq. assert (Hm : mem q (loaded t2) = true).
+    { rewrite L2, mem_app. apply orb_true_iff. left. now apply mem_true_iff. }
+    pose proof (load_same_modules _ _ _ _ _ _ _ _ (Permutation_sym P) H2 H1 q Hm) as Hm1.
+    rewrite L1, mem_app, (D2 q Hq), orb_false_r in Hm1. now apply mem_true_iff. }
+  assert (U1 : forall q, In q N1 -> In q U).
+  { intros q Hq. destruct (HU q) as [Hl|Hu]; auto.
+    - rewrite L1, mem_app. apply orb_true_iff. left. now apply mem_true_iff.
+    - rewrite (D1 q Hq) in Hl. discriminate. }
+  assert (U2 : forall q, In q N2 -> In q U) by auto.
+  assert (PN : Permutation (rev N1) (rev N2)).
+  { apply NoDup_Permutation.
+    - now apply NoDup_rev.
+    - now apply NoDup_rev.
+    - intros x. rewrite <- !in_rev. split; auto. }
+  pose proof (I1 U1 []) as E1. pose proof (I2 U2 []) as E2.
+  change (run_ops [] t1) with (Ok t1) in E1. change (run_ops [] t2) with (Ok t2) in E2.
+  assert (C1 : compatible pf fs (rev N1)).
+  { intros p q Hp Hq. apply HC; apply U1; now apply in_rev. }
+  pose proof (perm_blocks pf fs _ _ PN (NoDup_rev ND1) C1 [] t) as E.
+  exact (req_trans (Ok t1) _ (Ok t2) E1 (req_trans _ _ _ E (req_sym _ _ E2))).
+Qed.
+
+Lemma import_order_independent_l : forall fuel pf fs U l1 l2 t t1 t2,
+  Permutation l1 l2 -> load fuel pf fs l1 t = Ok t1 -> load fuel pf fs l2 t = Ok t2 ->
+  independent pf fs U ->
+  (forall q, mem q (loaded t1) = true -> mem q (loaded t) = true \/ In q U) ->
+  teq t1 t2.
+Proof. intros. eapply import_order_compatible_l; eauto using independent_compatible. Qed.
 
 Lemma equal_tables_answer_alike_l : forall a b, teq a b ->
   (forall g k, tlookup g k a = tlookup g k b) /\
@@ -525,15 +826,6 @@ Proof.
 Qed.
 
 (* ---------- a decidable sufficient check of [compatible], for concrete file systems *)
-Definition option_eq_dec {A} (d : forall a b : A, {a = b} + {a <> b}) : forall a b : option A, {a = b} + {a <> b}.
-Proof. decide equality. Defined.
-Definition prod_eq_dec {A B} (da : forall a b : A, {a = b} + {a <> b}) (db : forall a b : B, {a = b} + {a <> b})
-  : forall a b : A * B, {a = b} + {a <> b}.
-Proof. decide equality. Defined.
-Definition member_eq_dec : forall a b : member, {a = b} + {a <> b}.
-Proof. decide equality; [apply (option_eq_dec Nat.eq_dec)|apply string_dec]. Defined.
-Definition sdef_eq_dec : forall a b : sdef, {a = b} + {a <> b}.
-Proof. decide equality; [apply (list_eq_dec member_eq_dec)|apply bool_dec]. Defined.
 Definition impl_eq_dec : forall a b : impl_def, {a = b} + {a <> b}.
 Proof.
   decide equality; try apply string_dec.
@@ -562,9 +854,9 @@ Definition disjointb (a b : list (ftag * name)) : bool :=
   forallb (fun x => if in_dec fk_eq_dec x b then false else true) a.
 Definition compatb (o1 o2 : op) : bool :=
   if op_eq_dec o1 o2 then true else disjointb (foot o1) (foot o2).
-Definition compatibleb (fuel : nat) (fs : fsys) (l : list name) : bool :=
+Definition compatibleb (pf : nat) (fs : fsys) (l : list name) : bool :=
   forallb (fun p => forallb (fun q =>
-     String.eqb p q || forallb (fun o1 => forallb (compatb o1) (path_ops fuel fs q)) (path_ops fuel fs p)) l) l.
+     String.eqb p q || forallb (fun o1 => forallb (compatb o1) (block pf fs q)) (block pf fs p)) l) l.
 
 Lemma compatb_sound : forall o1 o2, compatb o1 o2 = true -> compat o1 o2.
 Proof.
@@ -573,9 +865,9 @@ Proof.
   destruct (in_dec fk_eq_dec x (foot o2)); [discriminate|contradiction].
 Qed.
 
-Lemma compatibleb_sound : forall fuel fs l, compatibleb fuel fs l = true -> compatible fuel fs l.
+Lemma compatibleb_sound : forall pf fs l, compatibleb pf fs l = true -> compatible pf fs l.
 Proof.
-  intros fuel fs l H p q Hp Hq Hne o1 o2 H1 H2. unfold compatibleb in H.
+  intros pf fs l H p q Hp Hq Hne o1 o2 H1 H2. unfold compatibleb in H.
   rewrite forallb_forall in H. specialize (H p Hp). rewrite forallb_forall in H. specialize (H q Hq).
   apply orb_true_iff in H. destruct H as [H|H]; [apply String.eqb_eq in H; contradiction|].
   rewrite forallb_forall in H. specialize (H o1 H1). rewrite forallb_forall in H. apply compatb_sound. auto.
